@@ -102,3 +102,22 @@ Proof.
   - apply Bool.orb_false_iff in Em. destruct Em as [Em1 Em2].
     apply Bool.negb_false_iff in Em1. apply Z.eqb_eq in Em1. auto.
 Qed.
+
+(* hardened children (index >= 2^31): the MAC input is 0x00 || ser256(k) || ser32(i), whatever the group *)
+Theorem ckey_derive_hardened_input : forall (pt : Type) (mulG : Z -> pt) n ser33 hmac512 k cc i, HARDENED <= i ->
+  ckey_derive pt mulG n ser33 hmac512 k cc i =
+  let out := hmac512 cc (0%N :: be_bytes_z 32 k ++ be_bytes_z 4 i) in
+  match priv_tweak_add n k (be_val (firstn 32 out)) with Some k' => Some (k', skipn 32 out) | None => None end.
+Proof.
+  intros pt mulG n ser33 hmac512 k cc i Hi. unfold ckey_derive. destruct (Z.ltb_spec i HARDENED); [lia|]. reflexivity.
+Qed.
+(* non-hardened children hash serP(k*G) || ser32(i) *)
+Theorem ckey_derive_normal_input : forall (pt : Type) (mulG : Z -> pt) n ser33 hmac512 k cc i h x, i < HARDENED ->
+  ser33 (mulG k) = h :: x ->
+  ckey_derive pt mulG n ser33 hmac512 k cc i =
+  let out := hmac512 cc (h :: x ++ be_bytes_z 4 i) in
+  match priv_tweak_add n k (be_val (firstn 32 out)) with Some k' => Some (k', skipn 32 out) | None => None end.
+Proof.
+  intros pt mulG n ser33 hmac512 k cc i h x Hi Hs. unfold ckey_derive. destruct (Z.ltb_spec i HARDENED); [|lia].
+  rewrite Hs. reflexivity.
+Qed.
